@@ -342,7 +342,7 @@ def oracle(ctx, tasks=None):
 def run(ctx):
     ctx.rule = ('correspondence cases: (guard, value) pairs over ints (incl. +-2^63, 2^1024 boundaries), floats, nan, +-inf, '
                 'bools, lists, arrays, str, None; oracle cases: (dim, method, kind, parameter, value class / non-finite '
-                'kind @ position / wrong length) with exactly one invalid argument per call; distinct = distinct '
+                'kind @ position / wrong length, on sorted and unsorted x) with exactly one invalid argument per call; distinct = distinct '
                 'canonical case; non-trivial = value is not a plain valid number in 1..5 (correspondence), every oracle case')
     ctx.trusted += [
         'np.asarray_chkfinite / np.asarray conversions (NumPy 2.1 semantics modelled: truth value of arrays, '
